@@ -37,6 +37,7 @@ def run(tier, seed):
     cx.cov["abstract_cases"] = len(cs)
     cx.assumptions += ["Table 1 of arXiv:1607.06292 as transcribed in spec/Yukawa.tla and harness/drv/d_thdm.cpp (run_c09)",
                        "the general-model encoding Pi_f = cos(beta) (sqrt(2) M_f (zeta_f + tan(beta)) / v + Delta_f)"]
+    cx.selftest_corruption("Trace_C09.tla", shards[0], lambda ev: ev["res"]["amu2LF"] if ev["e"] == "Equiv" and ev["role"] == "b" and ev["exc"] == "" else None, "Equivalent")
     return cx.finish(rule="cases enumerated by TLC (Cases.tla: C09Cases: 4 types x 4 tan(beta) classes x running, aligned-vs-general, "
                           "and every (type, ignored parameter) pair of Yukawa.tla) with random points; distinct_nontrivial = pairs of "
                           "models both constructed")
